@@ -465,6 +465,12 @@ class NumpyCodegenMapper(CachedMapper[str, Never, []]):
                     start = (None
                              if are_shape_components_equal(dim-1, idx.start)
                              else idx.start)
+                    if (isinstance(start, int) and start < 0
+                            and isinstance(dim, int)):
+                        # A normalized start of -1 means "before the first
+                        # element" (an empty slice), whereas numpy reads a
+                        # literal -1 as "the last element".
+                        start -= dim
 
                     stop = (None
                             if are_shape_components_equal(-1, idx.stop)
